@@ -97,14 +97,98 @@ func c09BigBatch() []model.Doc {
 }
 
 func c09Big(c *explore.Ctx, shardOffset int) {
-	built, err := build(c09BigBatch(), 1025)
+	c09Env(c, "BIG", c09BigBatch(), c09BigMenu(), 2, []int{0, 1, 2}, shardOffset)
+	// BIGLOC: location chunks of 150-300 KiB; one thread re-uses its iterator (prealloc) for a second
+	// list while the other walks with a fresh one. Executions are long (tens of thousands of
+	// locations), so the pairs are explored at preemption bound 1.
+	c09Env(c, "BIGLOC", c09BigLocBatch(), c09BigLocMenu(), 1, []int{0}, shardOffset+3)
+}
+
+func c09BigLocBatch() []model.Doc {
+	n := 600
+	batch := make([]model.Doc, n)
+	x := uint32(13)
+	mkLocs := func(k int) []model.Loc {
+		ls := make([]model.Loc, k)
+		for i := range ls {
+			x = x*1664525 + 1013904223
+			s := int(x>>8) % 5000000
+			ls[i] = model.Loc{P: i + 1 + int(x>>28), S: s, E: s + 1 + int(x>>24)%9}
+		}
+		return ls
+	}
+	for i := range batch {
+		ts := []model.Term{{T: "all", Freq: 48, Locs: mkLocs(48)}}
+		if i%2 == 0 {
+			ts = append(ts, model.Term{T: "half", Freq: 44, Locs: mkLocs(44)})
+		}
+		batch[i] = model.Doc{gen.IDField("l", i), {N: "a", Len: 92, Terms: ts}}
+	}
+	return batch
+}
+
+func c09BigLocMenu() []c09Op {
+	walk := func(seg segment.Segment, term string, pre segment.PostingsIterator, b *strings.Builder) (segment.PostingsIterator, string) {
+		d, err := seg.Dictionary("a")
+		if err != nil {
+			return nil, "ERR " + err.Error()
+		}
+		pl, err := d.PostingsList([]byte(term), nil, nil)
+		if err != nil {
+			return nil, "ERR " + err.Error()
+		}
+		it, err := pl.Iterator(true, true, true, pre)
+		if err != nil {
+			return nil, "ERR " + err.Error()
+		}
+		h, n := uint64(14695981039346656037), 0
+		for {
+			p, err := it.Next()
+			if err != nil {
+				return nil, "ERR " + err.Error()
+			}
+			if p == nil {
+				break
+			}
+			n++
+			for _, l := range p.Locations() {
+				h = (h ^ uint64(l.Start())*31 ^ uint64(l.End())) * 1099511628211
+			}
+		}
+		fmt.Fprintf(b, "%s:%d:%016x;", term, n, h)
+		return it, ""
+	}
+	return []c09Op{
+		{"postingsLocs(all, then half with the same iterator)", func(seg segment.Segment) string {
+			var b strings.Builder
+			it, e := walk(seg, "all", nil, &b)
+			if e != "" {
+				return e
+			}
+			if _, e = walk(seg, "half", it, &b); e != "" {
+				return e
+			}
+			return b.String()
+		}},
+		{"postingsLocs(half, fresh iterator)", func(seg segment.Segment) string {
+			var b strings.Builder
+			if _, e := walk(seg, "half", nil, &b); e != "" {
+				return e
+			}
+			return b.String()
+		}},
+	}
+}
+
+func c09Env(c *explore.Ctx, prefix string, batch []model.Doc, menu []c09Op, bound int, finalOps []int, shardOffset int) {
+	built, err := build(batch, 1025)
 	if err != nil {
-		envFail(c, "C09 BIG environment: "+err.Error())
+		envFail(c, "C09 "+prefix+" environment: "+err.Error())
 		return
 	}
 	img, _, err := persist(built)
 	if err != nil {
-		envFail(c, "C09 BIG environment: "+err.Error())
+		envFail(c, "C09 "+prefix+" environment: "+err.Error())
 		return
 	}
 	fresh := func() segment.Segment {
@@ -114,23 +198,20 @@ func c09Big(c *explore.Ctx, shardOffset int) {
 		}
 		return s
 	}
-	menu := c09BigMenu()
 	solo := make([]string, len(menu))
 	for i, op := range menu {
 		solo[i] = guardStr(func() string { return op.run(fresh()) })
 		if strings.HasPrefix(solo[i], "ERR") || strings.HasPrefix(solo[i], "panic") {
-			envFail(c, "C09 BIG solo run of "+op.name+" failed: "+solo[i])
+			envFail(c, "C09 "+prefix+" solo run of "+op.name+" failed: "+solo[i])
 			return
 		}
 	}
 	var scs []c09Scenario
 	for i := range menu {
 		for j := i; j < len(menu); j++ {
-			b := 2
-			scs = append(scs, c09Scenario{fmt.Sprintf("BIG-pair[%s|%s]", menu[i].name, menu[j].name), nil, []int{i, j}, b})
+			scs = append(scs, c09Scenario{fmt.Sprintf("%s-pair[%s|%s]", prefix, menu[i].name, menu[j].name), nil, []int{i, j}, bound})
 		}
 	}
-	finalOps := []int{0, 1, 2}
 	for si, sc := range scs {
 		if c.Expired() {
 			break
